@@ -36,21 +36,31 @@ Definition n_bool_int : str := [98;111;111;108;95;105;110;116].
 Definition n_pow2 : str := [112;111;119;50].
 Definition n_enum : str := [101;110;117;109].
 Definition n_machine : str := [109;97;99;104;105;110;101].
+Definition n_template_float_or_token : str :=
+  [116;101;109;112;108;97;116;101;95;102;108;111;97;116;95;111;114;95;116;111;107;101;110].
+Definition n_template_float : str := [116;101;109;112;108;97;116;101;95;102;108;111;97;116].
+Definition n_template_int : str := [116;101;109;112;108;97;116;101;95;105;110;116].
+Definition n_template_bool : str := [116;101;109;112;108;97;116;101;95;98;111;111;108].
+Definition n_template_secs : str := [116;101;109;112;108;97;116;101;95;115;101;99;115].
+Definition n_template_ms : str := [116;101;109;112;108;97;116;101;95;109;115].
+Definition n_template_str : str := [116;101;109;112;108;97;116;101;95;115;116;114].
+Definition n_gain : str := [103;97;105;110].
 (* validators that exist but are not modelled *)
 Definition n_unmodelled : list str := [
-  [116;101;109;112;108;97;116;101;95;102;108;111;97;116;95;111;114;95;116;111;107;101;110];
-  [116;101;109;112;108;97;116;101;95;102;108;111;97;116];
-  [116;101;109;112;108;97;116;101;95;105;110;116];
-  [116;101;109;112;108;97;116;101;95;98;111;111;108];
-  [116;101;109;112;108;97;116;101;95;115;101;99;115];
-  [116;101;109;112;108;97;116;101;95;109;115];
-  [116;101;109;112;108;97;116;101;95;115;116;114];
   [105;110;116;95;102;114;111;109;95;104;101;120];
   [107;105;118;121;99;111;108;111;114];
   [99;111;108;111;114];
   [99;111;108;111;114;95;111;114;95;116;111;107;101;110];
-  [103;97;105;110];
   [115;117;98;99;111;110;102;105;103]].
+(* template classes of mpf/core/placeholder_manager.py *)
+Definition c_IntTemplate : str := [73;110;116;84;101;109;112;108;97;116;101].
+Definition c_FloatTemplate : str := [70;108;111;97;116;84;101;109;112;108;97;116;101].
+Definition c_BoolTemplate : str := [66;111;111;108;84;101;109;112;108;97;116;101].
+Definition c_StringTemplate : str := [83;116;114;105;110;103;84;101;109;112;108;97;116;101].
+Definition c_TextTemplate : str := [84;101;120;116;84;101;109;112;108;97;116;101].
+(* reserved "section" of the machine table: the texts Python's ast.parse(text, mode='eval') accepts (the expression
+   grammar is abstract: supplied by the harness for every text of the case, like the device names) *)
+Definition n_expr : str := [35;101;120;112;114].
 
 Definition s_none : str := [110;111;110;101].
 Definition s_NONE_U : str := [78;79;78;69].
@@ -71,6 +81,7 @@ Inductive vkind :=
 | KStr | KLstr | KFloat | KInt | KNum | KBool | KMs | KSecs | KList | KDict | KBoolInt | KPow2
 | KEnum | KMachine
 | KTok (k : vkind)          (* _validate_type_or_token(func) *)
+| KTplInt | KTplFloat | KTplBool | KTplSecs | KTplMs | KTplStr | KGain
 | KUnmodelled | KUnknown.
 
 Definition kind_of (n : str) : vkind :=
@@ -94,13 +105,21 @@ Definition kind_of (n : str) : vkind :=
   else if zs_eqb n n_pow2 then KPow2
   else if zs_eqb n n_enum then KEnum
   else if zs_eqb n n_machine then KMachine
+  else if zs_eqb n n_template_int then KTplInt
+  else if zs_eqb n n_template_float then KTplFloat
+  else if zs_eqb n n_template_float_or_token then KTok KTplFloat
+  else if zs_eqb n n_template_bool then KTplBool
+  else if zs_eqb n n_template_secs then KTplSecs
+  else if zs_eqb n n_template_ms then KTplMs
+  else if zs_eqb n n_template_str then KTplStr
+  else if zs_eqb n n_gain then KGain
   else if mem_str n n_unmodelled then KUnmodelled
   else KUnknown.
 
 (* does the Python method accept the keyword argument `param`? *)
 Definition takes_param (k : vkind) : bool :=
   match k with
-  | KFloat | KInt | KNum | KBool | KMs | KSecs | KDict | KEnum | KMachine | KTok _ => true
+  | KFloat | KInt | KNum | KBool | KMs | KSecs | KDict | KEnum | KMachine | KTok _ | KTplFloat => true
   | _ => false
   end.
 (* ... and is it a required positional argument? *)
@@ -176,7 +195,7 @@ Definition truthy (v : yv) : bool :=
   | YNone => false | YBool b => b | YInt z => negb (z =? 0)
   | YFloat (FNum q) _ => negb (Qeq_bool q 0) | YFloat _ _ => true
   | YStr s => negb (is_nil s) | YList l => negb (is_nil l) | YDict l => negb (is_nil l)
-  | YSet l => negb (is_nil l) | YToken _ | YDev _ _ => true
+  | YSet l => negb (is_nil l) | YToken _ | YDev _ _ | YNative _ | YTemplate _ _ => true
   end.
 
 Definition none_or_strip (x : str) : yv := if zs_eqb x s_none then YNone else YStr (strip x).
@@ -191,9 +210,50 @@ Definition string_to_list (item : yv) : result (list yv) :=      (* Util.string_
   | _ => Err EAssert
   end.
 
+(* re.findall(r'([\w|-]+?\{.*?\}|[\w|-]+)', s) on ASCII text: leftmost, non-overlapping; at a start position
+   the first alternative (lazy word run, '{', lazy anything-but-newline, '}') can only match when the '{' directly
+   follows the MAXIMAL run of word characters and a '}' follows on the same line; otherwise the greedy word run *)
+Definition is_wordc (c : Z) : bool := is_alpha c || is_digit c || (c =? 95) || (c =? 124) || (c =? 45).
+
+Fixpoint span_word (s : str) : str * str :=
+  match s with
+  | c :: t => if is_wordc c then let '(w, r) := span_word t in (c :: w, r) else ([], s)
+  | [] => ([], [])
+  end.
+
+(* text up to and including the first '}', provided no newline comes first *)
+Fixpoint find_close (s : str) : option (str * str) :=
+  match s with
+  | [] => None
+  | c :: t => if c =? 125 then Some ([c], t)
+              else if c =? 10 then None
+              else match find_close t with Some (b, r) => Some (c :: b, r) | None => None end
+  end.
+
+Fixpoint ev_tokens (fuel : nat) (s : str) : list str :=
+  match fuel with
+  | O => []
+  | S f =>
+      match s with
+      | [] => []
+      | c :: t =>
+          if is_wordc c then
+            let '(w, r) := span_word s in
+            match r with
+            | 123 :: r' =>
+                match find_close r' with
+                | Some (body, rest) => (w ++ 123 :: body) :: ev_tokens f rest
+                | None => w :: ev_tokens f r
+                end
+            | _ => w :: ev_tokens f r
+            end
+          else ev_tokens f t
+      end
+  end.
+
 Definition string_to_event_list (item : yv) : result (list yv) := (* Util.string_to_event_list *)
   match item with
-  | YStr s => if mem_z 123 s then Err EUnsup                      (* the "{...}" regex is not modelled *)
+  | YStr s => if mem_z 123 s then Ok (map none_or_strip (ev_tokens (S (length s)) s))
               else string_to_list item
   | _ => string_to_list item
   end.
@@ -235,6 +295,68 @@ Definition as_fl (v : yv) : fl :=
   | YInt z => fl_of_int_exact z
   | YFloat f _ => f
   | _ => FNaN
+  end.
+
+(* ---- templates (placeholder_manager.build_*_template) and gain -------------------------------------- *)
+Definition parses (m : machine) (s : str) : bool := mem_str s (section_of m n_expr).
+
+(* XTemplate(self._parse_template(text), text, ...): SyntaxError -> AssertionError *)
+Definition mk_template (m : machine) (cls : str) (s : str) : result yv :=
+  if parses m s then Ok (YTemplate cls s) else Err EAssert.
+
+Definition build_int_template (m : machine) (item : yv) : result yv :=
+  match item with
+  | YBool b => Ok (YNative (YInt (b2z b)))                         (* int(True) *)
+  | YInt z => Ok (YNative (YInt z))
+  | YStr s => match parse_int s with
+              | Some z => Ok (YNative (YInt z))
+              | None => mk_template m c_IntTemplate s
+              end
+  | _ => Err EUnsup
+  end.
+
+Definition build_float_template (m : machine) (item : yv) : result yv :=
+  match item with
+  | YBool b => Ok (YNative (YFloat (FNum (inject_Z (b2z b))) []))
+  | YInt z => let f := fl_of_Z z in if fl_has_bad f then Err EUnsup else Ok (YNative (YFloat f []))
+  | YFloat f _ => Ok (YNative (YFloat f []))
+  | YStr s => match parse_float s with
+              | Some f => if fl_has_bad f then Err EUnsup else Ok (YNative (YFloat f []))
+              | None => mk_template m c_FloatTemplate s
+              end
+  | _ => Err EUnsup
+  end.
+
+Definition str_or_int (item : yv) : bool :=                        (* isinstance(item, (str, int)) *)
+  match item with YStr _ | YInt _ | YBool _ => true | _ => false end.
+
+Definition fl_clamp01 (f : fl) : fl :=                             (* min(max(f, 0.0), 1.0); NaN stays NaN *)
+  match f with
+  | FNum q => if Qle_bool q 0 then FNum 0 else if Qle_bool 1 q then FNum 1 else f
+  | FInf true => FNum 0
+  | FInf false => FNum 1
+  | other => other
+  end.
+
+Definition s_minus_inf : str := [45;105;110;102].
+Definition s_db : str := [100;98].
+
+(* Util.string_to_gain *)
+Definition string_to_gain (item : yv) : result fl :=
+  match py_str item with
+  | None => Err EUnsup                                             (* str(list/dict) *)
+  | Some s0 =>
+      let s := lower s0 in
+      if starts_with s s_minus_inf then Ok (FNum 0)
+      else if ends_with s s_db then
+        match parse_float (filter (fun c => negb (is_alpha c)) s) with
+        | None => Err EValue                                       (* float('') escapes as ValueError *)
+        | Some _ => Err EUnsup                                     (* 10 ** (db / 20): not modelled *)
+        end
+      else match parse_float s with
+           | Some f => if fl_has_bad f then Err EUnsup else Ok (fl_clamp01 f)
+           | None => Ok (FNum 1)
+           end
   end.
 
 Fixpoint validate_scalar (m : machine) (k : vkind) (param : option str) (item : yv) : result yv :=
@@ -349,6 +471,62 @@ Fixpoint validate_scalar (m : machine) (k : vkind) (param : option str) (item : 
                   else validate_scalar m k' param item
       | _ => validate_scalar m k' param item
       end
+  | KTplInt =>
+      match item with
+      | YNone => Ok YNone
+      | _ => if str_or_int item then build_int_template m item else Err (ECfg 5)
+      end
+  | KTplFloat =>                                                   (* param is accepted and ignored *)
+      match item with
+      | YNone => Ok YNone
+      | YStr _ | YInt _ | YBool _ | YFloat _ _ => build_float_template m item
+      | _ => Err (ECfg 5)
+      end
+  | KTplBool =>
+      match item with
+      | YNone => Ok YNone
+      | YBool b => Ok (YNative (YBool b))
+      | YStr s => mk_template m c_BoolTemplate s
+      | _ => Err (ECfg 5)
+      end
+  | KTplSecs =>
+      match item with
+      | YNone => Ok YNone
+      | _ => if str_or_int item then
+               match string_to_secs item with
+               | Ok f => if fl_has_bad f then Err EUnsup else Ok (YNative (YFloat f []))
+               | Err EValue => build_float_template m item         (* "it will be a template" *)
+               | Err e => Err e
+               end
+             else Err (ECfg 5)
+      end
+  | KTplMs =>
+      match item with
+      | YNone => Ok YNone
+      | _ => if str_or_int item then
+               match string_to_ms item with
+               | Ok z => Ok (YNative (YInt z))
+               | Err EValue => build_int_template m item
+               | Err e => Err e
+               end
+             else Err (ECfg 5)
+      end
+  | KTplStr =>
+      match item with
+      | YNone => Ok YNone
+      | _ => match py_str item with
+             | None => Err EUnsup
+             | Some s =>
+                 if mem_z 123 s then Ok (YTemplate c_TextTemplate s)
+                 else if starts_with s [40] && ends_with s [41] then mk_template m c_StringTemplate s
+                 else Ok (YNative (YStr s))
+             end
+      end
+  | KGain =>
+      match item with
+      | YNone => Ok YNone
+      | _ => bindR (string_to_gain item) (fun f => Ok (YFloat f []))
+      end
   | KUnmodelled => Err EUnsup
   | KUnknown => Err EUnsup
   end.
@@ -379,7 +557,7 @@ Definition validate_item (m : machine) (validator : str) (item : yv) : result yv
 
 (* ---- Python dict keys ----------------------------------------------------------------------------- *)
 Definition hashable (v : yv) : bool :=
-  match v with YList _ | YDict _ | YSet _ => false | _ => true end.
+  match v with YList _ | YDict _ | YSet _ | YNative _ => false | _ => true end.   (* NativeTypeTemplate has __eq__ only *)
 
 Definition key_num (v : yv) : option fl :=
   match v with
@@ -680,6 +858,9 @@ Definition within (param : option str) (v : fl) : bool :=
       end
   end.
 
+Definition gain_ok (f : fl) : bool :=
+  match f with FNaN => true | _ => fl_le (FNum 0) f && fl_le f (FNum 1) end.
+
 Fixpoint has_kind (m : machine) (k : vkind) (param : option str) (r : yv) : bool :=
   match k with
   | KStr => match r with YNone | YStr _ => true | _ => false end
@@ -715,8 +896,44 @@ Fixpoint has_kind (m : machine) (k : vkind) (param : option str) (r : yv) : bool
                 | _, _ => false
                 end
   | KTok k' => match r with YToken _ => true | _ => has_kind m k' param r end
+  | KTplInt | KTplMs =>
+      match r with
+      | YNone | YNative (YInt _) => true
+      | YTemplate c t => zs_eqb c c_IntTemplate && parses m t
+      | _ => false
+      end
+  | KTplFloat | KTplSecs =>
+      match r with
+      | YNone | YNative (YFloat _ _) => true
+      | YTemplate c t => zs_eqb c c_FloatTemplate && parses m t
+      | _ => false
+      end
+  | KTplBool =>
+      match r with
+      | YNone | YNative (YBool _) => true
+      | YTemplate c t => zs_eqb c c_BoolTemplate && parses m t
+      | _ => false
+      end
+  | KTplStr =>
+      match r with
+      | YNone | YNative (YStr _) => true
+      | YTemplate c t => (zs_eqb c c_TextTemplate && mem_z 123 t) || (zs_eqb c c_StringTemplate && parses m t)
+      | _ => false
+      end
+  | KGain =>
+      (* what is returned: None, a float in [0, 1], or NaN (min(max(nan, 0.0), 1.0) is nan: finding
+         gain-nan-unclamped); the declared range alone is [is_gain] below *)
+      match r with
+      | YNone => true
+      | YFloat f _ => gain_ok f
+      | _ => false
+      end
   | KUnmodelled | KUnknown => false
   end.
+
+(* the DECLARED type of gain: None or a float in [0.0, 1.0] *)
+Definition is_gain (r : yv) : bool :=
+  match r with YNone => true | YFloat f _ => fl_le (FNum 0) f && fl_le f (FNum 1) | _ => false end.
 
 (* the DECLARED type of pow2: None or an int that is a power of two *)
 Definition is_pow2_int (r : yv) : bool :=
@@ -768,6 +985,8 @@ Fixpoint yv_eqb (a b : yv) : bool :=
       forallb (fun e => existsb (fun e' => key_eqb e' e || yv_eqb e' e) x) y
   | YToken x, YToken y => zs_eqb x y
   | YDev _ x, YDev _ y => zs_eqb x y       (* by name: the same device object can sit in several collections *)
+  | YNative x, YNative y => yv_eqb x y
+  | YTemplate c x, YTemplate d y => zs_eqb c d && zs_eqb x y
   | _, _ => false
   end.
 
